@@ -58,6 +58,8 @@ def run(ctx, rep):
                    "convert_vec = U·vec with the same U; Kraus -> HS uses kron(K, conj(K))", floor=3)
     rep.rule("R4", "sparse tables: builders give each table the conjugation/transposition its name states, each accessor guards "
                    "and returns its own field, and each *_with_sparsity conversion reads the table of its own direction", floor=12)
+    rep.rule("R7", "dictionary fast paths: HS[a,b] = sum_rc conj(M_ab[r,c]) C[r,c] and C[r,c] = sum_ab HS[a,b] M_ab[r,c] with "
+                   "M_ab = B_a (x) conj(B_b), read against the layout the dictionary builder actually stores", floor=2)
     rep.rule("R6", "an option (defaulted parameter) that both a conversion and its delegate accept under the same name is handed on, "
                    "so that the caller's choice (basis ordering mode, truncation threshold, constraint flag) governs every path", floor=40)
     rep.rule("R5", "functions reached through one slot (self.__class__(...), _generate_from_var_func()) bind the call made through it", floor=28)
@@ -136,6 +138,7 @@ def run(ctx, rep):
     _check_tables(ctx, rep)
     _check_table_orientation(ctx, rep)
     _check_option_forwarding(ctx, rep)
+    _check_dict_paths(ctx, rep)
 
     # ---------------------------------------------------------------------- R5
     base = ix.cls("quara.objects.qoperation.QOperation")
@@ -526,3 +529,197 @@ def _check_option_forwarding(ctx, rep):
                         rep.holds("R6", f, con, "%s <- %s" % (p, unparse(e)), node=c)
                     else:
                         rep.info("R6", f, con, "callee option %s is set to %s, not to the caller's value" % (p, unparse(e)), node=c)
+
+
+# ------------------------------------------------------------------------------ R7: dictionary fast paths
+def _dict_builder(ctx, field: str):
+    """Layout of CompositeSystem.<field> (a dict of lists of triples) as the builder writes it:
+    dict(key=('basis'|'entry', swapped?), first=('basis'|'entry', swapped?), coef_swapped?, coef_conj?) or a reason string."""
+    cs = ctx.ix.cls("quara.objects.composite_system.CompositeSystem")
+    m = cs.methods.get(field.lstrip("_"))
+    if m is None:
+        return "accessor %s not found" % field
+    loops = [n for n in own_nodes(m.node) if isinstance(n, ast.For) and isinstance(n.iter, ast.Call) and (dotted(n.iter.func) or "").endswith("product")
+             and isinstance(n.target, ast.Tuple) and len(n.target.elts) == 2]
+    if len(loops) != 1:
+        return "expected one product loop over the basis pairs"
+    lp = loops[0]
+    a, b = [x.id for x in lp.target.elts]
+    defs = {}
+    for st in lp.body:
+        if isinstance(st, ast.Assign) and len(st.targets) == 1 and isinstance(st.targets[0], ast.Name):
+            defs[st.targets[0].id] = st.value
+    mat = None
+    for k, v in defs.items():
+        if isinstance(v, ast.Call) and (dotted(v.func) or "").split(".")[-1] == "kron" and len(v.args) == 2:
+            mat = k
+            x, y = v.args
+            for _ in range(2):
+                x = defs.get(x.id, x) if isinstance(x, ast.Name) else x
+                y = defs.get(y.id, y) if isinstance(y, ast.Name) else y
+            px, py = product(x), product(y)
+            if not (px == [("basis[%s]" % a, False, False)] and py == [("basis[%s]" % b, True, False)]):
+                return "matrix is kron(%s, %s), expected kron(basis[%s], conj(basis[%s]))" % (fmt(px), fmt(py), a, b)
+    if mat is None:
+        return "no kron(...) matrix in the loop"
+    inner = [n for n in lp.body if isinstance(n, ast.For) and isinstance(n.target, ast.Tuple) and len(n.target.elts) == 2
+             and isinstance(n.iter, ast.Call) and dotted(n.iter.func) == "zip" and len(n.iter.args) == 2]
+    if len(inner) != 1:
+        return "expected one loop over the non-zero entries"
+    r, c = [x.id for x in inner[0].target.elts]
+    # zip(row_indices, column_indices) with row_indices, column_indices = where_not_zero(matrix)
+    wz = [st for st in lp.body if isinstance(st, ast.Assign) and isinstance(st.targets[0], ast.Tuple) and isinstance(st.value, ast.Call)
+          and (dotted(st.value.func) or "").endswith("where_not_zero") and unparse(st.value.args[0]) == mat]
+    if len(wz) != 1 or [unparse(x) for x in wz[0].targets[0].elts] != [unparse(x) for x in inner[0].iter.args]:
+        return "entry indices are not where_not_zero(%s) in (row, column) order" % mat
+    roles = {a: ("basis", 0), b: ("basis", 1), r: ("entry", 0), c: ("entry", 1)}
+    layouts = set()
+    for n in ast.walk(inner[0]):
+        key = tup = None
+        if isinstance(n, ast.Call) and isinstance(n.func, ast.Attribute) and n.func.attr == "append" and isinstance(n.func.value, ast.Subscript) \
+                and unparse(n.func.value.value) == "self." + field and n.args:
+            key, tup = n.func.value.slice, n.args[0]
+        elif isinstance(n, ast.Assign) and isinstance(n.targets[0], ast.Subscript) and unparse(n.targets[0].value) == "self." + field \
+                and isinstance(n.value, ast.List) and len(n.value.elts) == 1:
+            key, tup = n.targets[0].slice, n.value.elts[0]
+        if key is None:
+            continue
+        if not (isinstance(key, ast.Tuple) and len(key.elts) == 2 and isinstance(tup, ast.Tuple) and len(tup.elts) == 3):
+            return "stored entry is not key (x, y) -> (u, v, coefficient)"
+        try:
+            k = [roles[x.id] for x in key.elts]
+            t = [roles[x.id] for x in tup.elts[:2]]
+        except (KeyError, AttributeError):
+            return "key / triple use names other than the loop variables"
+        co = tup.elts[2]
+        conj = False
+        while isinstance(co, ast.Call) and ((dotted(co.func) or "") in ("np.conjugate", "np.conj") or (isinstance(co.func, ast.Attribute) and co.func.attr in ("conj", "conjugate"))):
+            conj = not conj
+            co = co.args[0] if co.args else co.func.value
+        if not (isinstance(co, ast.Subscript) and unparse(co.value) == mat and isinstance(co.slice, ast.Tuple) and len(co.slice.elts) == 2):
+            return "coefficient is not %s[row, column]" % mat
+        try:
+            ci = [roles[x.id] for x in co.slice.elts]
+        except (KeyError, AttributeError):
+            return "coefficient index uses other names"
+        if {x[0] for x in k} != {k[0][0]} or {x[0] for x in t} != {t[0][0]} or {x[0] for x in ci} != {"entry"} or k[0][0] == t[0][0]:
+            return "key / triple mix basis and entry indices"
+        layouts.add((k[0][0], k[0][1] == 1, t[0][0], t[0][1] == 1, ci[0][1] == 1, conj))
+    if len(layouts) != 1:
+        return "append and first-store layouts differ or are missing: %s" % sorted(layouts)
+    kk, ks, tk, ts, cs_, cj = next(iter(layouts))
+    return dict(key=kk, key_swapped=ks, first=tk, first_swapped=ts, coef_swapped=cs_, coef_conj=cj, node=m.node, func=m)
+
+
+def _check_dict_paths(ctx, rep):
+    ix = ctx.ix
+    OBJ = "quara.objects."
+    for qn, field, direction in ((OBJ + "gate.to_hs_from_choi_with_dict", "_dict_from_choi_to_hs", "choi->hs"),
+                                 (OBJ + "gate.to_choi_from_hs_with_dict", "_dict_from_hs_to_choi", "hs->choi")):
+        f = ix.funcs.get(qn)
+        if f is None:
+            raise AnalysisError("%s not found" % qn)
+        con = "%s via %s" % (f.name, field[1:])
+        lay = _dict_builder(ctx, field)
+        if isinstance(lay, str):
+            rep.undecided("R7", f, con, "builder of %s: %s" % (field, lay))
+            continue
+        want_key = "basis" if direction == "choi->hs" else "entry"
+        if lay["key"] != want_key:
+            rep.violation("R7", lay["func"], con, "%s is keyed by %s indices, a %s conversion looks it up by %s indices" % (field, lay["key"], direction, want_key),
+                          node=lay["node"])
+            continue
+        loops = [n for n in own_nodes(f.node) if isinstance(n, ast.For) and isinstance(n.target, ast.Tuple) and len(n.target.elts) == 2
+                 and isinstance(n.iter, ast.Call) and (dotted(n.iter.func) or "").endswith("product")]
+        if len(loops) != 1:
+            rep.undecided("R7", f, con, "expected one product loop")
+            continue
+        lp = loops[0]
+        k1, k2 = [x.id for x in lp.target.elts]
+        get = [st for st in lp.body if isinstance(st, ast.Assign) and isinstance(st.value, ast.Call) and isinstance(st.value.func, ast.Attribute)
+               and st.value.func.attr == "get" and unparse(st.value.func.value).endswith("." + field[1:])]
+        inner = [n for n in lp.body if isinstance(n, ast.For) and isinstance(n.target, ast.Tuple) and len(n.target.elts) == 3]
+        if len(get) != 1 or len(inner) != 1 or unparse(inner[0].iter) != unparse(get[0].targets[0]):
+            rep.undecided("R7", f, con, "expected `nz = c_sys.%s.get((x, y), [])` and one loop `for u, v, coefficient in nz`" % field[1:])
+            continue
+        key = get[0].value.args[0]
+        if not (isinstance(key, ast.Tuple) and [unparse(x) for x in key.elts] in ([k1, k2], [k2, k1])):
+            rep.undecided("R7", f, con, "lookup key %s is not the pair of loop variables" % unparse(key))
+            continue
+        key_sw = [unparse(x) for x in key.elts] == [k2, k1]
+        t1, t2, co = [x.id for x in inner[0].target.elts]
+        acc = [st for st in inner[0].body if isinstance(st, ast.AugAssign) and isinstance(st.op, ast.Add) and isinstance(st.target, ast.Subscript)]
+        if len(acc) != 1:
+            rep.undecided("R7", f, con, "expected one accumulation `target[x, y] += ...`")
+            continue
+        st = acc[0]
+        tgt_idx = [unparse(x) for x in st.target.slice.elts] if isinstance(st.target.slice, ast.Tuple) else None
+        # factors of the summand
+        facs = _scalar_factors_c02(st.value)
+        coef_conj, src_idx, other = False, None, []
+        for e in facs:
+            cj = False
+            while isinstance(e, ast.Call) and ((dotted(e.func) or "") in ("np.conjugate", "np.conj") or (isinstance(e.func, ast.Attribute) and e.func.attr in ("conj", "conjugate"))):
+                cj = not cj
+                e = e.args[0] if e.args else e.func.value
+            if isinstance(e, ast.Name) and e.id == co:
+                coef_conj = cj
+            elif isinstance(e, ast.Subscript) and not cj:
+                sl = e.slice
+                if isinstance(sl, ast.Tuple) and len(sl.elts) == 2:
+                    src_idx = [unparse(x) for x in sl.elts]
+                elif isinstance(e.value, ast.Subscript):
+                    src_idx = [unparse(e.value.slice), unparse(sl)]
+                else:
+                    other.append(e)
+            else:
+                other.append(e)
+        if tgt_idx is None or src_idx is None or other:
+            rep.undecided("R7", f, con, "summand `%s` is not coefficient * source[x, y]" % unparse(st.value))
+            continue
+        # express every index pair in builder coordinates
+        # key pair as the builder stored it: (kA, kB) = builder order of the key kind
+        kpair = [k1, k2] if not key_sw else [k2, k1]          # what is passed as (first, second) of the key
+        if lay["key_swapped"]:
+            kpair = kpair[::-1]                                  # now kpair = (index 0, index 1) of the key kind
+        tpair = [t1, t2]
+        if lay["first_swapped"]:
+            tpair = tpair[::-1]                                  # (index 0, index 1) of the triple kind
+        eff_conj = coef_conj != lay["coef_conj"]
+        # coefficient = M_{basis}[entry0, entry1] (or swapped)
+        entry = kpair if lay["key"] == "entry" else tpair
+        basis_ = kpair if lay["key"] == "basis" else tpair
+        if lay["coef_swapped"]:
+            entry_of_coef = entry[::-1]
+        else:
+            entry_of_coef = entry
+        if direction == "choi->hs":
+            # HS[a, b] = Tr[M_ab^dagger C] = sum conj(M_ab[r, c]) C[r, c]  (= sum M_ab[r, c] C[c, r] for Hermitian M_ab)
+            ok_t = tgt_idx == basis_
+            straight = src_idx == entry_of_coef
+            transposed = src_idx == entry_of_coef[::-1]
+            if not ok_t:
+                rep.violation("R7", f, con, "accumulates into %s[%s]; the entry for basis pair (%s) belongs at [%s]" % (unparse(st.target.value), ", ".join(tgt_idx),
+                              ", ".join(basis_), ", ".join(basis_)), node=st)
+            elif not (straight or transposed):
+                rep.undecided("R7", f, con, "source index %s is not the entry pair %s" % (src_idx, entry))
+            elif eff_conj != straight:
+                rep.violation("R7", f, con, "HS[a,b] = Tr[M_ab^† C] = sum_rc conj(M_ab[r,c]) C[r,c]; the code sums %s(M_ab[%s]) * C[%s], i.e. "
+                              "Tr[%s C]: the conjugation is lost, so matrices M_ab with imaginary entries (Pauli Y, antisymmetric Gell-Mann) "
+                              "contribute with the wrong sign" % ("conj" if eff_conj else "", ", ".join(entry_of_coef), ", ".join(src_idx),
+                                                                    "M_ab^T" if straight else "conj(M_ab)^†"), node=st)
+            else:
+                rep.holds("R7", f, con, "sum %sM_ab[%s] C[%s] = Tr[M_ab^† C]%s" % ("conj " if eff_conj else "", ", ".join(entry_of_coef), ", ".join(src_idx),
+                                                                                      "" if eff_conj else " (M_ab Hermitian: the Hermitian-basis assumption of the dict path)"), node=st)
+        else:
+            # C[r, c] = sum_ab HS[a, b] M_ab[r, c]
+            ok = tgt_idx == entry_of_coef and src_idx == basis_ and not eff_conj
+            rep.check(ok, "R7", f, con, "C[r,c] += HS[a,b] M_ab[r,c]",
+                      "Choi[r,c] = sum_ab HS[a,b] M_ab[r,c]; the code accumulates %s[%s] += %s[%s] * %sM_ab[%s]" % (
+                          unparse(st.target.value), ", ".join(tgt_idx), "hs", ", ".join(src_idx), "conj " if eff_conj else "", ", ".join(entry_of_coef)), node=st)
+
+
+def _scalar_factors_c02(e):
+    if isinstance(e, ast.BinOp) and isinstance(e.op, ast.Mult):
+        return _scalar_factors_c02(e.left) + _scalar_factors_c02(e.right)
+    return [e]
